@@ -1,15 +1,15 @@
 import BppModel.Graph
 /-
 Model of src/Bpp/Graph/TreeGraphImpl.h instantiated at GlobalGraph (`TreeGlobalGraph`): the
-graph of `BppModel/Graph.lean` plus the cached validity flag `isValid_` (:30).  The flag is
-reset by the virtual `topologyHasChanged_()` (:329), which GlobalGraph calls from every
+graph of `BppModel/Graph.lean` plus the cached validity flag `isValid_` (:31).  The flag is
+reset by the virtual `topologyHasChanged_()` (:344), which GlobalGraph calls from every
 primitive that modifies the structure (GlobalGraph.cpp: linkInNodeStructure_,
 linkInEdgeStructure_, unlinkIn*, createNode, switchNodes, deleteNode, makeDirected,
 makeUndirected, setRoot); the model resets it exactly when one of them has run.
 Recursive traversals of the C++ take fuel here (node count + 2); outcome `fuel` stands for a
 traversal that does not return (`BppProofs/Props/C15Fuel.lean`: it is never reached on a valid
 tree, and the answer does not depend on the fuel beyond that bound).
-Line numbers: the library worktree with its `fix:` commits.
+Line numbers: the library worktree with its `fix:` commits (as of round 3: GlobalGraph.cpp after C14's repair of the copy constructor / `operator=`, TreeGraphImpl.h after the `mustBeRooted_` repairs).
 -/
 namespace Bpp.Graph
 
@@ -29,12 +29,12 @@ deriving DecidableEq, Repr
 
 namespace T
 
-/-- `TreeGraphImpl(bool rooted)` (:234) -/
+/-- `TreeGraphImpl(bool rooted)` (:242) -/
 def empty (rooted : Bool) : T := { g := Graph.empty rooted }
 
-/-! ### isTree (GlobalGraph.cpp:649) -/
+/-! ### isTree (GlobalGraph.cpp:668) -/
 
-/-- `nodesAreMetOnlyOnce_` (GlobalGraph.cpp:668): `ok none` = a node was met twice,
+/-- `nodesAreMetOnlyOnce_` (GlobalGraph.cpp:687): `ok none` = a node was met twice,
 `ok (some met)` = fine with the updated set, `exc` = getOutgoingNeighbors threw -/
 def metOnce (g : G) : Nat → Nat → Nat → List Nat → TRes (Option (List Nat))
   | 0, _, _, _ => .fuel
@@ -59,7 +59,7 @@ def isTree (g : G) : TRes Bool :=
   | .fuel => .fuel
   | .ub => .ub
 
-/-- `isValid` (:241): `isValid_ || validate_()`; the cache is written by `validate_` (:323) -/
+/-- `isValid` (:249): `isValid_ || validate_()`; the cache is written by `validate_` (:337) -/
 def isValid (t : T) : TRes Bool × T :=
   if t.valid then (.ok true, t)
   else
@@ -81,26 +81,26 @@ def link (t : T) (a b : Nat) := t.lift (t.g.link a b)
 def unlink (t : T) (a b : Nat) := t.lift (t.g.unlink a b)
 def deleteNode (t : T) (n : Nat) := t.lift (t.g.deleteNode n)
 def setRoot (t : T) (n : Nat) := t.lift (t.g.setRoot n)
-/-- `makeDirected` returns early on a directed graph (GlobalGraph.cpp:818): no invalidation then -/
+/-- `makeDirected` returns early on a directed graph (GlobalGraph.cpp:845): no invalidation then -/
 def makeDirected (t : T) : T := if t.g.directed then t else { g := t.g.makeDirected, valid := false }
 def makeUndirected (t : T) : GOut Unit × T :=
   if !t.g.directed then (.ok () t.g, t) else t.lift t.g.makeUndirected
 
 /-! ### queries of TreeGraphImpl -/
 
-/-- `getFatherOfNode` (:247) -/
+/-- `getFatherOfNode` (:255) -/
 def father (g : G) (n : Nat) : Option Nat :=
   match g.inNeighbors n with
   | some [f] => some f
   | _ => none
 
-/-- `hasFather` (:265): throws for an absent node -/
+/-- `hasFather` (:273): throws for an absent node -/
 def hasFather (g : G) (n : Nat) : Option Bool := (RowQ.nbIn (g.rowOf n)).map (fun k => decide (k ≥ 1))
 
-/-- `getEdgeToFather` (:258) -/
+/-- `getEdgeToFather` (:266) -/
 def edgeToFather (g : G) (n : Nat) : Option Nat := (father g n).bind (fun f => g.getEdge f n)
 
-/-- `isLeaf` of the tree (:271) -/
+/-- `isLeaf` of the tree (:279) -/
 def isLeafT (g : G) (n : Nat) : Option Bool :=
   (RowQ.nbOut (g.rowOf n)).map (fun k => if g.directed then decide (k = 0) else decide (k ≤ 1))
 
@@ -117,7 +117,12 @@ def leavesUnder (g : G) : Nat → Nat → List Nat → TRes (List Nat)
       | some true => .ok (found ++ [start])
       | none => .exc
 
-/-- `fillSubtreeMetNodes_` (:553) -/
+/-- `getLeavesUnderNode` (:305): `mustBeRooted_` (as repaired: in an unrooted tree the sons of a son
+include the node itself, and next to another inner node the recursion would never end), then the recursion -/
+def leavesUnderQ (g : G) (n : Nat) : TRes (List Nat) :=
+  if !g.directed then .exc else leavesUnder g (g.nodes.length + 2) n []
+
+/-- `fillSubtreeMetNodes_` (:622) -/
 def subtreeNodes (g : G) : Nat → Nat → List Nat → TRes (List Nat)
   | 0, _, _ => .fuel
   | fuel + 1, n, met =>
@@ -125,7 +130,7 @@ def subtreeNodes (g : G) : Nat → Nat → List Nat → TRes (List Nat)
     | none => .exc
     | some sons => sons.foldl (fun acc s => match acc with | .ok m => subtreeNodes g fuel s m | r => r) (.ok (met ++ [n]))
 
-/-- `fillSubtreeMetEdges_` (:564) -/
+/-- `fillSubtreeMetEdges_` (:633) -/
 def subtreeEdges (g : G) : Nat → Nat → List Nat → TRes (List Nat)
   | 0, _, _ => .fuel
   | fuel + 1, n, met =>
@@ -140,7 +145,7 @@ def subtreeEdges (g : G) : Nat → Nat → List Nat → TRes (List Nat)
           | none => .exc
         | r => r) (.ok met)
 
-/-- the climb of `getNodePathBetweenTwoNodes` (:485-491): the node and its ancestors up to a
+/-- the climb of `getNodePathBetweenTwoNodes` (:545-559): the node and its ancestors up to a
 father-less node; `exc` = hasFather / getFatherOfNode threw -/
 def climb (g : G) : Nat → Nat → List Nat → TRes (List Nat)
   | 0, _, _ => .fuel
@@ -153,8 +158,10 @@ def climb (g : G) : Nat → Nat → List Nat → TRes (List Nat)
       | none => .exc
       | some f => climb g fuel f (acc ++ [n])
 
-/-- `getNodePathBetweenTwoNodes` (:476) -/
+/-- `getNodePathBetweenTwoNodes` (:534): `mustBeRooted_` first (as repaired: an unrooted tree is
+refused, the climbs below would run for ever between two nodes joined to each other alone) -/
 def nodePath (g : G) (a b : Nat) (includeAncestor : Bool) : TRes (List Nat) :=
+  if !g.directed then .exc else
   if !g.hasNode a || !g.hasNode b then .exc
   else
     match climb g (g.nodes.length + 2) a [], climb g (g.nodes.length + 2) b [] with
@@ -165,7 +172,7 @@ def nodePath (g : G) (a b : Nat) (includeAncestor : Bool) : TRes (List Nat) :=
         | t1, t2 => (t1, t2)
       let (t1, t2) := strip p1.length p2.length
       let head := p1.take t1
-      -- `pathMatrix1[tmp1]` (:517): when the climbs end at different nodes tmp1 is the size:
+      -- `pathMatrix1[tmp1]` (:578): when the climbs end at different nodes tmp1 is the size:
       -- out of bounds, undefined
       if includeAncestor then
         match p1[t1]? with
@@ -176,7 +183,7 @@ def nodePath (g : G) (a b : Nat) (includeAncestor : Bool) : TRes (List Nat) :=
     | _, .exc => .exc
     | _, _ => .fuel
 
-/-- `getEdgePathBetweenTwoNodes` (:527) -/
+/-- `getEdgePathBetweenTwoNodes` (:587) -/
 def edgePath (g : G) (a b : Nat) : TRes (List Nat) :=
   match nodePath g a b true with
   | .ok p =>
@@ -186,7 +193,7 @@ def edgePath (g : G) (a b : Nat) : TRes (List Nat) :=
     | none => .exc
   | r => r
 
-/-- the second loop of `MRCA` (:640-652): climb from `here` until the line of the first node is
+/-- the second loop of `MRCA` (:672-686): climb from `here` until the line of the first node is
 joined; the rank of the joining point in that line (`rank.find(here)`).  `exc` = hasFather /
 getFatherOfNode threw, or a father-less node outside the line was reached ("MRCA not found") -/
 def joinRank (g : G) (line : List Nat) : Nat → Nat → TRes Nat
@@ -202,7 +209,7 @@ def joinRank (g : G) (line : List Nat) : Nat → Nat → TRes Nat
         | none => .exc
         | some f => joinRank g line fuel f
 
-/-- one turn of the loop over the other nodes (:640): the highest joining point so far -/
+/-- one turn of the loop over the other nodes (:672): the highest joining point so far -/
 def mrcaStep (g : G) (line : List Nat) (fuel : Nat) (acc : TRes Nat) (n : Nat) : TRes Nat :=
   match acc with
   | .ok m =>
@@ -211,7 +218,7 @@ def mrcaStep (g : G) (line : List Nat) (fuel : Nat) (acc : TRes Nat) (n : Nat) :
     | r => r
   | r => r
 
-/-- `MRCA` (:610): the ancestors of the first node (`climb`), then the highest point where the
+/-- `MRCA` (:644): the ancestors of the first node (`climb`), then the highest point where the
 climbs from the other nodes join that line.  The empty list (`throw getRoot()`, a node id and not
 an exception) is not exercised; `exc` stands for it as well -/
 def mrca (g : G) (nodes : List Nat) : TRes Nat :=
@@ -243,7 +250,7 @@ def andThen {α β : Type} (r : GOut α × T) (f : α → T → GOut β × T) : 
   | .ok a _ => f a r.2
   | .exc g => (.exc g, r.2)
 
-/-- `topologyHasChanged_()` called explicitly at the end of setFather / addSon / removeSon (:361..) -/
+/-- `topologyHasChanged_()` called explicitly at the end of setFather / addSon / removeSon (:417, :428, :436, :443, :520) -/
 def touch (r : GOut Unit × T) : GOut Unit × T :=
   match r.1 with
   | .ok _ _ => (r.1, { r.2 with valid := false })
@@ -251,7 +258,7 @@ def touch (r : GOut Unit × T) : GOut Unit × T :=
 
 def unit {α : Type} (r : GOut α × T) : GOut Unit × T := (r.1.forget, r.2)
 
-/-- `setFather(node, father)` (:356) -/
+/-- `setFather(node, father)` (:410) -/
 def setFather (t : T) (n f : Nat) : GOut Unit × T :=
   if !t.g.hasNode f then (.exc t.g, t) else
   match hasFather t.g n with
@@ -265,13 +272,13 @@ def setFather (t : T) (n f : Nat) : GOut Unit × T :=
       else (.ok () t.g, t)
     touch (andThen step1 (fun _ t1 => unit (t1.link f n)))
 
-/-- `addSon(node, son)` (:375) -/
+/-- `addSon(node, son)` (:433) -/
 def addSon (t : T) (n s : Nat) : GOut Unit × T := touch (unit (t.link n s))
 
-/-- `removeSon(node, son)` (:459) -/
+/-- `removeSon(node, son)` (:517) -/
 def removeSon (t : T) (n s : Nat) : GOut Unit × T := touch (unit (t.unlink n s))
 
-/-- `propagateDirection_` (:346): switch every edge on the way up to the old root -/
+/-- `propagateDirection_` (:399): switch every edge on the way up to the old root -/
 def propagate (fuel : Nat) (t : T) (n : Nat) : TRes (GOut Unit × T) :=
   match fuel with
   | 0 => .fuel
@@ -289,7 +296,7 @@ def propagate (fuel : Nat) (t : T) (n : Nat) : TRes (GOut Unit × T) :=
         | .exc => .exc
         | .ub => .ub
 
-/-- `fillRelationsFrom_` (:379): the relations of an unrooted tree as (father, son) pairs met from
+/-- `fillRelationsFrom_` (:383): the relations of an unrooted tree as (father, son) pairs met from
 `node`, not walking back to `origin` -/
 def relationsFrom (g : G) : Nat → Nat → Nat → List (Nat × Nat) → TRes (List (Nat × Nat))
   | 0, _, _, _ => .fuel
@@ -302,7 +309,7 @@ def relationsFrom (g : G) : Nat → Nat → Nat → List (Nat × Nat) → TRes (
         | .ok r => if nb = origin then .ok r else relationsFrom g fuel nb node (r ++ [(node, nb)])
         | e => e) (.ok rel)
 
-/-- one turn of the loop of `rootAt` (:369-373): a relation that `makeDirected` kept towards the new
+/-- one turn of the loop of `rootAt` (:374-378): a relation that `makeDirected` kept towards the new
 root (`getTop(getAnyEdge(father, son)) != father`) is switched -/
 def orientStep (r : GOut Unit × T) (p : Nat × Nat) : GOut Unit × T :=
   andThen r (fun _ t =>
@@ -313,7 +320,7 @@ def orientStep (r : GOut Unit × T) (p : Nat × Nat) : GOut Unit × T :=
       | none => (.exc t.g, t)
       | some (top, _) => if top ≠ p.1 then t.lift (t.g.switchNodes p.1 p.2) else (.ok () t.g, t))
 
-/-- `rootAt` (:346): a rooted tree is re-rooted by turning round the father chain of the new root;
+/-- `rootAt` (:350): a rooted tree is re-rooted by turning round the father chain of the new root;
 an unrooted one is made directed and the relations listed from the new root are oriented -/
 def rootAt (t : T) (newRoot : Nat) : TRes (GOut Unit × T) :=
   let (v, t0) := t.isValid
@@ -339,7 +346,7 @@ def rootAt (t : T) (newRoot : Nat) : TRes (GOut Unit × T) :=
   | .fuel => .fuel
   | .ub => .ub
 
-/-- `unRoot(joinRootSons)` (:392) -/
+/-- `unRoot(joinRootSons)` (:447) -/
 def unRoot (t : T) (join : Bool) : GOut Unit × T :=
   let step1 : GOut Unit × T :=
     if join then
@@ -353,7 +360,7 @@ def unRoot (t : T) (join : Bool) : GOut Unit × T :=
     else (.ok () t.g, t)
   andThen step1 (fun _ t1 => t1.makeUndirected)
 
-/-- `getSubtreeNodes` (:585) / `getSubtreeEdges` (:596): `mustBeValid_` (may write the cache), then
+/-- `getSubtreeNodes` (:599) / `getSubtreeEdges` (:610): `mustBeValid_` (may write the cache), then
 `mustBeRooted_`, then the recursion -/
 def getSubtree (edges : Bool) (t : T) (n : Nat) : TRes (List Nat) × T :=
   let (v, t') := t.isValid
@@ -366,7 +373,7 @@ def getSubtree (edges : Bool) (t : T) (n : Nat) : TRes (List Nat) × T :=
   | .fuel => (.fuel, t')
   | .ub => (.ub, t')
 
-/-- `removeSons` (:495): `removeSon` for a snapshot of the sons -/
+/-- `removeSons` (:506): `removeSon` for a snapshot of the sons -/
 def removeSons (t : T) (n : Nat) : GOut (List Nat) × T :=
   match t.g.outNeighbors n with
   | none => (.exc t.g, t)
@@ -378,7 +385,7 @@ def removeSons (t : T) (n : Nat) : GOut (List Nat) × T :=
 
 def linkE (t : T) (a b e : Nat) := t.lift (t.g.linkE a b e)
 
-/-- `setFather(node, father, edgeId)` (:410) -/
+/-- `setFather(node, father, edgeId)` (:421) -/
 def setFatherE (t : T) (n f e : Nat) : GOut Unit × T :=
   if !t.g.hasNode f then (.exc t.g, t) else
   match hasFather t.g n with
@@ -392,8 +399,28 @@ def setFatherE (t : T) (n f e : Nat) : GOut Unit × T :=
       else (.ok () t.g, t)
     touch (andThen step1 (fun _ t1 => t1.linkE f n e))
 
-/-- `addSon(node, son, edgeId)` (:429) -/
+/-- `addSon(node, son, edgeId)` (:440) -/
 def addSonE (t : T) (n s e : Nat) : GOut Unit × T := touch (t.linkE n s e)
+
+/-- `setOutGroup(newOutGroup)` (:524): `mustBeRooted_`, `deleteNode(getRoot())`, a new node split off the edge to
+the father of the out-group (`createNodeFromEdge(getEdge(getFatherOfNode(newOutGroup), newOutGroup))`), `rootAt(newRoot)`.
+`deleteNode` leaves `root_` on the deleted id, so the validity test of `rootAt` (a traversal from the root) raises:
+transcribed as it is, the member never succeeds; what it has done before stays done.  Tied (op `t.setOutGroup`), not
+part of the histories of the theorems (no clause of the property is about out-groups) -/
+def setOutGroup (t : T) (n : Nat) : TRes (GOut Unit × T) :=
+  if !t.g.directed then .ok (.exc t.g, t) else
+  match t.deleteNode t.g.root with
+  | (.exc g, t1) => .ok (.exc g, t1)
+  | (.ok _ _, t1) =>
+    match father t1.g n with
+    | none => .ok (.exc t1.g, t1)
+    | some f =>
+      match t1.g.getEdge f n with
+      | none => .ok (.exc t1.g, t1)
+      | some e =>
+        match t1.lift (t1.g.createNodeFromEdge e) with
+        | (.exc g, t2) => .ok (.exc g, t2)
+        | (.ok newRoot _, t2) => t2.rootAt newRoot
 
 /-! ### histories -/
 
